@@ -324,7 +324,7 @@ pub fn run(tier: &str, seed: u64) -> i32 {
     let findings = load_findings();
     replay_findings(&mut report, &findings, &judge);
 
-    let n = if tier == "thorough" { 60_000 } else { 2_400 };
+    let n = if tier == "thorough" { 60_000 } else { 7_200 };
     let expand = |kind: &'static str| {
         move |(rule, recipes, bits): &(RuleSpec, Vec<gen::DocRecipe>, u8)| {
             if !rule.well_formed() {
@@ -340,7 +340,7 @@ pub fn run(tier: &str, seed: u64) -> i32 {
     gen::drive(&mut report, 60, n, strategy, expand("c12.repeat"), judge, |_, rep| rep.label("repeat_case"));
 
     // threads: the judge itself spawns 16 threads, so drive these sequentially-ish
-    let tn = if tier == "thorough" { 3_000 } else { 160 };
+    let tn = if tier == "thorough" { 3_000 } else { 480 };
     let values = gen::sample_values(mix(seed, 61), tn, &strategy());
     for v in &values {
         for c in expand("c12.threads")(v) {
@@ -351,7 +351,7 @@ pub fn run(tier: &str, seed: u64) -> i32 {
     }
 
     // cross-process
-    let pn = if tier == "thorough" { 6_000 } else { 600 };
+    let pn = if tier == "thorough" { 6_000 } else { 1_800 };
     let pseed = mix(seed, 62);
     let exe = std::env::current_exe().expect("exe");
     let spawn = |reversed: bool| {
